@@ -440,6 +440,15 @@ pub fn run_history(plan: &Plan, opts: Opts) -> RunResult {
             }
         }
         let out = catch(|| m.apply(s, &mut dg, &mut obs));
+        if op.ends_with(".arrive") && !obs.skipped {
+            res.fault(match s.int("f") {
+                0 => "arrival.rng_stream",
+                1 => "arrival.serde_tokens",
+                2 | 3 => "arrival.unstructured_bytes",
+                4 => "arrival.quickcheck_gen",
+                _ => "arrival.quickcheck_shrink",
+            });
+        }
         for (p, sz) in protected.drain(..) {
             simalloc::set_readonly(p, sz, false);
             res.fault("alloc.readonly_operand");
